@@ -32,6 +32,9 @@ pub enum Op {
     /// have a leader, REMOVE the key through a survivor as the first write of the new term (`direct`) or after a write
     /// to another key, then write another key
     PublishKillLeaderRemove { key: u8, via: u8, direct: bool },
+    /// n publishes in a row on one key through one node (a node that is down meanwhile falls n entries behind and
+    /// catches up in one replicated batch)
+    PublishMany { key: u8, node: u8, n: u8 },
 }
 
 #[derive(Debug, Clone, Serialize, Deserialize)]
@@ -48,6 +51,7 @@ fn op_strategy() -> impl Strategy<Value = Op> {
         3 => Just(Op::Heal),
         2 => (50u16..1500).prop_map(|ms| Op::Pause { ms }),
         1 => Just(Op::KillLeader),
+        2 => (0u8..4, 0u8..3, 18u8..60).prop_map(|(key, node, n)| Op::PublishMany { key, node, n }),
     ]
 }
 
@@ -262,8 +266,38 @@ fn run_case_inner(case: &Case, c: &mut Cluster) -> CaseReport {
     let mut leader_changed_between_acks = false;
     let mut acked_since_leader_change = [false; 4];
     let mut frozen_as_leader: BTreeSet<usize> = BTreeSet::new();
-    for (opi, op) in case.ops.iter().enumerate() {
+    // a burst is n single publishes; a key's change history keeps 100 entries, so every key stays below 90 publishes
+    let mut expanded: Vec<Op> = vec![];
+    {
+        let mut per_key = [0u32; 4];
+        for op in &case.ops {
+            match op {
+                Op::PublishMany { key, node, n } => {
+                    let k = *key as usize % 4;
+                    let n = (*n as u32).min(85u32.saturating_sub(per_key[k]));
+                    per_key[k] += n;
+                    for _ in 0..n {
+                        expanded.push(Op::Publish { key: *key, node: *node });
+                    }
+                    if n >= 17 {
+                        labels.insert("burst_of_17_or_more_publishes".into());
+                    }
+                }
+                Op::Publish { key, .. } => {
+                    let k = *key as usize % 4;
+                    if per_key[k] < 90 {
+                        per_key[k] += 1;
+                        expanded.push(op.clone());
+                    }
+                }
+                other => expanded.push(other.clone()),
+            }
+        }
+    }
+    let mut writes_while_down = 0u32;
+    for (opi, op) in expanded.iter().enumerate() {
         match op {
+            Op::PublishMany { .. } => {}
             Op::Publish { key, node } | Op::Remove { key, node } => {
                 let k = *key as usize % 4;
                 let nd = *node as usize % 3;
@@ -297,6 +331,12 @@ fn run_case_inner(case: &Case, c: &mut Cluster) -> CaseReport {
                     what: format!("op #{} {:?} -> {:?}{}", opi, op, res, if via { " [node was frozen while leader]" } else { "" }),
                     via_thawed_leader: via,
                 });
+                if acked && down.is_some() {
+                    writes_while_down += 1;
+                    if writes_while_down == 17 {
+                        labels.insert("node_down_during_17_or_more_acknowledged_writes".into());
+                    }
+                }
                 if acked {
                     let l = c.leader();
                     if l.is_some() && l != last_leader {
@@ -338,6 +378,7 @@ fn run_case_inner(case: &Case, c: &mut Cluster) -> CaseReport {
                 }
             }
             Op::Heal => {
+                writes_while_down = 0;
                 if let Err(e) = heal(c, &mut down) {
                     return CaseReport::violation(labels.into_iter().collect(), true, format!("op #{}: node does not restart: {}", opi, e));
                 }
